@@ -416,6 +416,7 @@ func (p *Program) VerifyFunc(key string) *FuncReport {
 	for _, run := range runs {
 		ex := &Exec{P: p, Unit: shortName(key), Con: con, Inlined: inl, Used: used, Trusted: trusted}
 		ex.kernelMode = isWireKernel(fn)
+		ex.flatWire = con != nil && len(con.WireLen) > 0
 		ex.split = run
 		if run.on {
 			if run.rest {
@@ -619,6 +620,7 @@ func (ex *Exec) verifyTop(fn *ssa.Function, con *Contract) {
 		ex.oblige("panics-iff/returns-only-when-not", "panics-iff", pos, retG, Not(ex.PanicOK))
 	}
 	ex.preimageObligations(fr, con, entryEnv, post, retG, pos)
+	ex.wireLenObligations(fr, con, post, retG, pos)
 	ex.finish(nReq)
 }
 
